@@ -378,7 +378,7 @@ def gen_item(rng, tier, ver="3.7"):
                            "varnames": rng.randint(0, 20) if rng.chance(0.5) else None,
                            "co_freevars": rng.randint(0, 5) if rng.chance(0.4) else None, "co_cellvars": rng.randint(0, 5) if rng.chance(0.4) else None}
         if rng.chance(0.3):
-            g["line_tail"] = rng.choice(["noline", "noline", 3, 100])
+            g["line_tail"] = rng.choice(["noline", "noline", 3, 100, "multi"])
         if rng.chance(0.2):
             g["extarg"] = rng.randint(1, 2 ** 32)
         if rng.chance(0.2):
@@ -687,6 +687,7 @@ def gen_cli_plan(seed, tier):
                     picked.append(x)
             plan["sources"] = picked
         plan["invalid"] = "+".join(plan["sources"]) or "none"
+        plan["same_text"] = rng.chance(0.3)
     return plan
 
 
@@ -705,8 +706,11 @@ def cli_argv(plan, workdir):
     if "sources" in plan:
         simple = "x = 1"
         args = []
+        same = plan.get("same_text")
         for sk in plan["sources"]:
-            args += {"file": [fpath], "c": ["-c", simple], "e": ["-e", "'y = 2'"], "m": ["-m", "this"], "c0": ["-c", ""], "e0": ["-e", "''"]}[sk]
+            # with same_text every string-valued source is given the SAME text (a check that deduplicates values miscounts)
+            args += {"file": [fpath], "c": ["-c", "os" if same else simple], "e": ["-e", "os" if same else "'y = 2'"], "m": ["-m", "os" if same else "this"],
+                     "c0": ["-c", ""], "e0": ["-e", "''"]}[sk]
         argv = out + args
         if plan["sources"] == ["c0"]:
             return argv, {"source_kind": "c", "source": "", "filename": "<string>", "flags": flags}
@@ -905,6 +909,8 @@ def exec_cli(plan, tree, log=None):
         if oracle_req is None:
             # not exactly one source: usage error, nothing on stdout
             log.count("fault_invalid_source_combination")
+            if plan.get("same_text") and len(plan["sources"]) >= 2:
+                log.count("fault_invalid_sources_with_identical_text")
             if status != 2 or stdout != "":
                 log.violate("C16", "L1-usage-error-expected", "+".join(sorted(x[0] for x in plan["sources"])) or "none",
                             {"status": status, "stdout": stdout[:200], "argv": [a.replace(workdir, "<wd>") for a in argv], "sources_in_order": plan["sources"]})
